@@ -1,2 +1,67 @@
-// Package c19: monitor for property C19 (see DESIGN.md section 2).
+// Package c19: monitor for property C19 (see DESIGN.md section 2) —
+// document collections store and find documents faithfully.
+//
+// Each case is one pair of TWIN collections in a store of its own, run in a
+// child process: c_plain never has a secondary index, c_idx has indexes that are
+// declared with the collection, added after documents exist and removed again.
+// Both receive the same insert / replace / delete history. Oracles:
+//
+//	(1) twin relation: every search and count answers identically on both twins
+//	    (same documents; same order under a total order) — no reference semantics;
+//	(2) model: an in-memory list of documents and a three-valued evaluator of the
+//	    generated filters; only definite verdicts are enforced (declared field
+//	    present, non-null, written under the field's current declaration, constant
+//	    of the field's type); NULL / missing / LIKE are left to (1);
+//	(3) unique indexes admit no two live documents with equal non-null tuples and
+//	    a refused write leaves no trace;
+//	(4) the audit trail lists revisions 1..k in order with each payload;
+//	(5) document proofs (database backend): honest ones verify, tampered
+//	    (document / proof / known state) ones are never accepted with a false claim.
 package c19
+
+import (
+	"encoding/json"
+	"os"
+	"strconv"
+	"time"
+
+	"verifharness/internal/fw"
+)
+
+func init() {
+	fw.RegisterMonitor("C19", "exploration", Run)
+	fw.RegisterIsolated("c19-twins", func(c *fw.Ctx, data []byte) {
+		var sp caseSpec
+		if err := json.Unmarshal(data, &sp); err != nil {
+			c.Inconclusive("bad case: " + err.Error())
+			return
+		}
+		runCase(c, sp)
+	})
+}
+
+func Run(c *fw.Ctx) {
+	c.Rule = "PRNG twin collections (c_plain without, c_idx with secondary indexes declared at creation / added later / removed; flat and nested declared fields of all five types) receive the same insert / replace / delete / schema history through document.Engine (3 of 4 cases) or pkg/database (1 of 4, with ProofDocument + VerifyDocument under tamper operators); an evaluation is one search+count compared between the twins and against the three-valued model, one write judged (twin outcome, unique tuples, no trace when refused), one by-id / revision / audit check, or one proof verification judged by its claim; distinct = operation × field type × index state × query shape × outcome observed"
+	c.Assume("what the statement leaves open is not enforced by the model, only by the twin relation: comparisons on missing / null fields, fields declared after the revision was written, LIKE patterns, ordering of BOOLEAN / UUID, INTEGER fields holding values that are not exact int64, -0.0 (recorded under C15)")
+	c.Assume("document ids grow with insertion order inside one process (checked at run time; otherwise ORDER BY _id is compared as a set)")
+	c.Assume("SHA-256; alh of a transaction as read back from the same database is taken as the true state when judging proof claims")
+	n := c.N(40, 2000)
+	ops := 80
+	var cases [][]byte
+	only := -1
+	if v := os.Getenv("VERIF_C19_ONLY"); v != "" { // development aid: run one case
+		only, _ = strconv.Atoi(v)
+	}
+	for i := 0; i < n; i++ {
+		if only >= 0 && i != only {
+			continue
+		}
+		sp := caseSpec{Index: i, Variant: "engine", Ops: ops}
+		if i%4 == 3 {
+			sp.Variant = "db"
+		}
+		b, _ := json.Marshal(sp)
+		cases = append(cases, b)
+	}
+	c.RunIsolated("c19-twins", cases, fw.CasesOpts{Workers: 14, CaseTimout: 15 * time.Minute})
+}
